@@ -298,6 +298,9 @@ func c03RunTx(f []string, scratch string) Result {
 	if fired {
 		tags = append(tags, "fault-fired")
 	}
+	if c03ProgDupIds(prog) {
+		tags = append(tags, "repeated-part-id")
+	}
 	if err != nil {
 		tags = append(tags, "tx-failed")
 	} else {
@@ -319,16 +322,14 @@ func c03RunTx(f []string, scratch string) Result {
 		// known-finding predicates, from the input alone
 		if ft[0] == 'A' {
 			tags = append(tags, "kf:C03-after-commit-error")
-		} else if c03ProgPutThenDelSameId(prog) {
-			tags = append(tags, "kf:C03-rollback-order-orphan")
 		}
 	}
 	return Result{Out: strings.Join(out, " "), Oracle: oracle, Tags: tags}
 }
 
-// the program touches some part id more than once (the negation of C03_rollback_partial's hypothesis; in the
-// storage code this is dedupeFreshPart on a dedup hit: PutPart id, then DeletePart id)
-func c03ProgPutThenDelSameId(prog []c03Step) bool {
+// the program touches some part id more than once (what dedupeFreshPart does on a dedup hit: PutPart id, then
+// DeletePart id); a tag only — rollback is LIFO since 98ee436 and undoes such programs too
+func c03ProgDupIds(prog []c03Step) bool {
 	seen := map[int]bool{}
 	for _, s := range prog {
 		if s.kind == 'P' || s.kind == 'D' {
